@@ -283,11 +283,13 @@ def save (E : FloatExt) (s : Schema) (data : List (List Val)) : Except Err Str :
 
 /-- the loop over the file's lines in `read_scsv`: (yaml lines, csv lines).
 `isYaml`: inside the YAML section; `done`: the YAML section has been closed. -/
+def fenceNL : Str := "---\n".toList
+
 def fenceSplit : List Str → Bool → Bool → List Str × List Str
   | [], _, _ => ([], [])
   | l :: ls, isYaml, done =>
     if l = ['\n'] then fenceSplit ls isYaml done
-    else if l = "---\n".toList ∧ !done then
+    else if l = fenceNL ∧ !done then
       if isYaml then fenceSplit ls false true else fenceSplit ls true false
     else
       let (y, c) := fenceSplit ls isYaml done
